@@ -462,8 +462,8 @@ impl WorkerCtx {
         let cfg = Config {
             cases: cases as u32,
             failure_persistence: None,
-            max_shrink_iters: 4000,
-            max_shrink_time: 0,
+            max_shrink_iters: 3000,
+            max_shrink_time: 40_000,
             max_global_rejects: 1_000_000,
             verbose: 0,
             ..Config::default()
